@@ -342,7 +342,22 @@ def check_bpch_pads(ctx):
         else:
             ctx.violation(Finding('R-DTYPEPADS', rp, 'ncf2bpch', bad[3] if bad else fn.body[0], 'bpch %s pads %s/%s must both be %d (bytes of the bracketed fields); found %s'
                                   % (hdrtxt, a, c, want, ('%s / %s' % (bad[1], bad[2])) if bad else 'no paired store')), oid='bpch:%s.%s' % (hdrtxt, a))
-    if "tdv['SPAD1'] = tdv['EPAD1'] = np.prod(vals.shape) * 4" in t and "'%s>f' % str(tuple(var[0].shape))" in t:
+    # the data record: both markers of the per-variable block (not of its header) hold prod(shape of the step's values) * 4, and the
+    # data field is declared as float32 of the variable's per-step shape - through the store table / the dtype expression wherever built
+    recpads = dict((k, sorted(set(v for v, st_ in vs))) for k, vs in table.items() if (k.endswith("['SPAD1']") or k.endswith("['EPAD1']")) and "['header']" not in k
+                   and not k.startswith('general_header'))
+    padvals = set(v for vs in recpads.values() for v in vs)
+    okpads = len(recpads) == 2 and len(padvals) == 1 and re.match(r"^np\.prod\((vals|[\w\.\[\]']+\[ti\])\.shape\) \* 4$", list(padvals)[0])
+    dfmt = [norm(n) for n in ast.walk(fn) if isinstance(n, ast.BinOp) and isinstance(n.op, ast.Mod) and isinstance(n.left, ast.Constant) and n.left.value == '%s>f']
+    okfmt = any(re.match(r"^'%s>f' % (str\()?tuple\(var\[0\]\.shape\)\)?$", d_) for d_ in dfmt)
+    if not okfmt:
+        # the shape text may be built in its own statement
+        for n in ast.walk(fn):
+            if isinstance(n, ast.BinOp) and isinstance(n.op, ast.Mod) and isinstance(n.left, ast.Constant) and n.left.value == '%s>f' and isinstance(n.right, ast.Name):
+                defs_ = [s2 for s2 in ast.walk(fn) if isinstance(s2, ast.Assign) and any(isinstance(t_, ast.Name) and t_.id == n.right.id for t_ in s2.targets)]
+                if defs_ and norm(defs_[-1].value) in ('str(tuple(var[0].shape))', 'tuple(var[0].shape)'):
+                    okfmt = True
+    if okpads and okfmt:
         ctx.ok('R-DTYPEPADS', 'bpch:data record', where, 'pads = prod(vals.shape) * 4 for a float32 field of shape var[0].shape')
     else:
         ctx.violation(Finding('R-DTYPEPADS', rp, 'ncf2bpch', fn.body[0], 'bpch data record pads are not prod(shape) * 4'), oid='bpch:data')
